@@ -16,7 +16,9 @@ stopped: it pretends success), `exported` (the exporter's log, appended at `Expo
 Merged steps (sound for the safety clauses because the poll ticker may fire at any moment — `pTick` is
 always enabled — and the merged actions touch no shared state in between): OnEmit's `Enqueue` + trigger send
 + return; the poll iteration `Dropped()` + `Ready()` + `TryDequeue|Len` + re-trigger.
-Not modelled: cancellation of Shutdown's context; timeoutExporter (the deadline is the exporter's business).
+timeoutExporter is a synchronous wrapper: the expiry of the per-export timeout (label `eTimeout`) only cancels the
+context handed to the user exporter; the call ends when the user exporter returns (`eEnd`), whatever the timeout.
+Not modelled: cancellation of Shutdown's context.
 -/
 namespace Otel.C06
 
@@ -123,6 +125,7 @@ inductive Lbl where
   | eRecv                        -- exportSync: receive a request (marker: respond)
   | eStart                       -- chunkExporter: next chunk handed to the exporter (Export entry)
   | eEnd (ok : Bool)             -- exporter returns; after the last chunk: respond
+  | eTimeout                     -- timeoutExporter's context expires during an Export call: nothing else happens
   | eExit                        -- input closed and empty: close(done)
   | ffCall (fid : Nat)
   | ffCheck (fid : Nat)
@@ -223,6 +226,7 @@ def step (s : St) : Lbl → Option St
         else some { s with eph := .idle }
       else some { s with eph := .have, curErr := s.curErr || !ok }
     else none
+  | .eTimeout => if s.eph = .busy then some s else none
   | .eExit => if s.eph = .idle ∧ s.input = [] ∧ s.closed then some { s with eph := .exited } else none
   | .ffCall fid =>
     if s.ffs.any (·.fid = fid) then none
